@@ -34,6 +34,13 @@ CLAIMED = {
           'normalises with the real parser and requires agreement, idempotence, exact tag content, and raw fallback through '
           'the real CacheFeedingProcessor/RelayProcessor. Exhaustive for small sizes, random beyond.',
           'Accepted spellings are compared; the parser may reject more than the documented tag rules.', 'DESIGN.md 3/C18'),
+  'C13': ('exploration', 'audit hook + canary objects + result-type walker around the real pickle-speaking protocols',
+          'Feeds hand-assembled opcode programs (every route to a global, protocols 0-5, nested to depth 5, after valid '
+          'frames) and an exhaustive GLOBAL/STACK_GLOBAL lookup sweep over every (module, attribute) of the booted process to '
+          'the real MetricPickleReceiver and CacheManagementHandler; violations are audit events (import of a referenced '
+          'module, pickle.find_class, process creation), a canary firing, new modules, or a non-plain unpickling result. '
+          'The insecure unpickler is run once to prove the monitors fire.',
+          'Allow-list hard-coded in the check; lookup sweep is lookup-only.', 'DESIGN.md 3/C13'),
 }
 
 NOT_YET = 'check not built yet (work in progress; see DESIGN.md)'
